@@ -12,6 +12,7 @@ import (
 	"saoverif/internal/cfgx"
 	"saoverif/internal/core"
 	"saoverif/internal/guard"
+	"saoverif/internal/term"
 )
 
 // ---------------------------------------------------------------- E7: closed table of money flows
@@ -129,11 +130,12 @@ func matchFlowRow(rows []flowRow, fnName, method string, args []string) (int, st
 		// a value reached through a pointer parameter of a helper is rendered with a dereference mark: the record
 		// is the same one
 		party, amount = reDeref.ReplaceAllString(party, "$1"), reDeref.ReplaceAllString(amount, "$1")
-		if ok && row.Party != "" && !guard.Glob(normT(row.Party)).MatchString(party) {
+		party, amount = term.FlattenPhi(party), term.FlattenPhi(amount)
+		if ok && row.Party != "" && !guard.Glob(term.FlattenPhi(normT(row.Party))).MatchString(party) {
 			ok = false
 			why = "counter-party " + shorten(party) + " is not " + row.Party
 		}
-		if ok && !guard.Glob(normT(row.Amount)).MatchString(amount) {
+		if ok && !guard.Glob(term.FlattenPhi(normT(row.Amount))).MatchString(amount) {
 			ok = false
 			why = "amount " + shorten(amount) + " is not of the form " + row.Amount
 		}
